@@ -53,6 +53,12 @@ def gen_cases(rng, tier):
     if i % 8 == 3:
       huge = spec.make_huge(rng, model)
     cases.append({"route": route, "model": model, "style": rng.randrange(1 << 30), "huge": huge})
+  # discontinuities exactly ON rows of grids that are exact in doubles (first / interior / last row): judged strictly
+  for i in range(10 if tier == "quick" else 100):
+    route = ["potable", "cli", "api_class", "potable", "api_legacy"][i % 5]
+    kind = ["eam", "fs"][i % 2]
+    model = spec.exact_boundary_eam(rng, kind, "DL_POLY_EAM" if kind == "eam" else "DL_POLY_EAM_fs", "api" if route.startswith("api") else "potable")
+    cases.append({"route": route, "model": model, "style": rng.randrange(1 << 30), "huge": None})
   return cases
 
 
@@ -99,6 +105,11 @@ def run_case(case, ctx):
   ctx.cls("partial_last_record" if (nr % 4 or nrho % 4) else "full_records")
   ridx = oracle.sample_rows(nr, rng, 12)
   rhoidx = oracle.sample_rows(nrho, rng, 12)
+  strict = bool(model.get("exact_rows"))
+  if strict:
+    ctx.cls("exact_boundary_on_rows")
+    ridx = sorted(set(ridx) | set(k for k in model["exact_rows"]["r"] if k < nr))
+    rhoidx = sorted(set(rhoidx) | set(k for k in model["exact_rows"]["rho"] if k < nrho))
   if not ref.in_domain([R.F(dr * i) for i in ridx], [R.F(drho * i) for i in rhoidx], limit="1e100"):
     ctx.count("out_of_domain")
     return
@@ -171,7 +182,7 @@ def run_case(case, ctx):
     if float(b["start_tok"]) != 0.0:
       ctx.violation("header_start", "%s: start %s" % (where, b["start_tok"]), what="header_start")
     oracle.check_token(ctx, "header_end", b["end_tok"], R.F(step * (npts - 1)), 0, rel=1e-12, where=where)
-    eamref.check_series(ctx, "value_" + kw, b["values"], orc, step, idx, where, fmt="tabeam")
+    eamref.check_series(ctx, "value_" + kw, b["values"], orc, step, idx, where, fmt="tabeam", strict=strict)
     nz = nz or any(float(t) != 0.0 for t in b["values"])
   for key, cnt in want.items():
     if cnt != 1:
